@@ -239,7 +239,9 @@ def lensOk (N : Nat) (l : Option (List Int)) : Bool :=
   | some l => l.length == N
 
 /-- `slice_spect_data` for well-typed arguments (`lobe_size ≥ 0`, legal policy and window
-type). `T = 0` returns the empty result before anything is checked. -/
+type). `T = 0` returns the empty result before anything is checked. Wrong-sized length vectors
+are `Err.shape` (the code raises `RuntimeError`); the policy branches below are only reached
+with vectors of `N` entries, so their `getD` defaults are never read. -/
 def sliceSpectData (inp : Input) (inLens otherLens : Option (List Int)) (wt : WinType)
     (validOnly : Bool) (lobe : Nat) : Except Err (List Win) :=
   match inp with
@@ -253,7 +255,9 @@ def sliceSpectData (inp : Input) (inLens otherLens : Option (List Int)) (wt : Wi
     .ok (aliBatch T lobe wt validOnly rows inLens)
   | .ref N T rows =>
     if T = 0 then .ok [] else
-    if !lensOk N otherLens then .error .shape else
+    -- `other_lens.shape != (N,)` is tested explicitly; a wrong-sized `in_lens` fails in `in_lens.view(N, 1)`
+    -- (or, with `other_lens` omitted, in the `gather`): a `RuntimeError` either way
+    if !lensOk N inLens || !lensOk N otherLens then .error .shape else
     .ok (refBatch T lobe wt validOnly rows inLens otherLens)
 
 /-! ## `chunk_token_sequences_by_slices` -/
@@ -293,6 +297,14 @@ def chunkTokens (partialOk retain : Bool) (refs : List (List Tok)) (slices : Lis
   let rows := splitLens chunkedLens flat
   let shifted := List.zipWith (fun row (sl : Int × Int) => row.map (shiftTok retain sl.1)) rows slices
   (shifted, chunkedLens)
+
+/-- `chunk_token_sequences_by_slices` with its shape checks (3-D `refs`): `slices.shape != (N, 2)` and
+`ref_lens.shape != (N,)` raise `RuntimeError` before anything is computed. -/
+def chunkTokensEntry (partialOk retain : Bool) (refs : List (List Tok)) (slices : List (Int × Int))
+    (refLens : Option (List Int)) : Except Err (List (List Tok) × List Nat) :=
+  if slices.length != refs.length then .error .shape else
+  if !lensOk refs.length refLens then .error .shape else
+  .ok (chunkTokens partialOk retain refs slices refLens)
 
 /-! ## `command_line._chunk_torch_spect_data_dir_do_work`: what is written for one utterance -/
 
